@@ -8,6 +8,7 @@ mod master;
 mod model;
 mod props;
 mod rng;
+mod rules;
 mod runner;
 mod scenario;
 
